@@ -343,7 +343,8 @@ C_Load == /\ Ready("C", "load") /\ Step("C")
                            THEN cfBad' = TRUE /\ Goto("C", "clrexc")          \* read fails: eof|fail, Exception
                            ELSE IF cfg.tail = "junk"
                              THEN cfBad' = cfBad /\ Goto("C", "clrexc")       \* "not a log container"
-                             ELSE cfBad' = cfBad /\ Goto("C", "done")         \* foreign exception: outer catch
+                             ELSE cfBad' = cfBad /\ Goto("C", "tellp")        \* foreign exception (bad_alloc): outer
+                                                                             \* catch, then the end is declared (fix of F3)
           /\ UNCHANGED <<uf, oq, Flags, cfOpen, ctmp, objCount, blk, wk, UVars, AVars, stale>>
 (* ... m_uncompressedFile.write(logContainer) } ; then the !good() check of the loop *)
 C_Put == /\ Ready("C", "put") /\ Step("C")
